@@ -143,6 +143,19 @@ fn cases() -> Vec<Case> {
             }
         }
     }
+    // integer constants outside the i64 range: rejected at load today; if one ever loads it must
+    // be judged by exact arithmetic, not clamped or wrapped
+    for key in ["f", "int(f)", "not(f)"] {
+        for c in ["9223372036854775808", "18446744073709551615", "18446744073709551616", "-9223372036854775809", "99999999999999999999"] {
+            for (p, _) in ops {
+                out.push(Case {
+                    form: format!("{}:'{}int-outside-i64'", key, p),
+                    yaml: rule(&format!("{{\"{}\": \"{}{}\"}}", key, p, c), "A"),
+                    two_fields: false,
+                });
+            }
+        }
+    }
     // str(): canonical decimal text
     for c in ["1", "-1", "0", "1.5", "9223372036854775807", "true", "1.0"] {
         out.push(Case {
